@@ -540,6 +540,7 @@ func (x *Exec) step(cfg *Config, f *Frame, in ssa.Instruction) (forks []*Config,
 		el := derefType(i.Type())
 		if isStructType(el) {
 			r := x.alloc(st, typeName(el))
+			x.noDangling(st, el, r)
 			x.storeStruct(st, r, el, x.zeroOf(el).(SV))
 			x.ghostInit(cfg, el, r)
 			f.regs[i] = TV{T: r}
@@ -769,7 +770,7 @@ func (x *Exec) load(cfg *Config, ptr Val, elem types.Type, pos token.Pos) Val {
 	case aGlobal:
 		name := "glob!" + pkgShortAny(a.G.Pkg.Pkg.Path()) + "." + a.G.Name()
 		t = x.d.Const(name, x.sortOf(elem))
-		if _, isIface := elem.Underlying().(*types.Interface); isIface && strings.HasPrefix(a.G.Name(), "Err") || strings.HasPrefix(a.G.Name(), "err") {
+		if _, isIface := elem.Underlying().(*types.Interface); isIface && (strings.HasPrefix(a.G.Name(), "Err") || strings.HasPrefix(a.G.Name(), "err") || a.G.Name() == "EOF" || a.G.Name() == "Canceled" || a.G.Name() == "DeadlineExceeded") {
 			// package-level error sentinels are non-nil and pairwise distinct from allocations
 			x.d.Axiom(Lt(t, IntLit(0)))
 		}
@@ -906,6 +907,38 @@ func (x *Exec) store(cfg *Config, ptr Val, v Val, vt types.Type) {
 		x.storeInFrame(cfg, a.Arr, a.Base)
 		arr := x.heapGet(st, a.Arr, SArr(SInt, x.sortOf(vt)))
 		st.heap[a.Arr] = Store(arr, a.Base, val)
+	}
+}
+
+// noDangling: no pointer field already in the heap refers to an object that
+// is only now being allocated (memory safety of Go). Stated for the pointer
+// fields, of struct types declared in the same package, that point to the
+// allocated type.
+func (x *Exec) noDangling(st *State, el types.Type, r Term) {
+	nt, ok := el.(*types.Named)
+	if !ok || nt.Obj().Pkg() == nil {
+		return
+	}
+	want := typeName(el)
+	scope := nt.Obj().Pkg().Scope()
+	for _, name := range scope.Names() {
+		tn, ok := scope.Lookup(name).(*types.TypeName)
+		if !ok {
+			continue
+		}
+		s, ok := tn.Type().Underlying().(*types.Struct)
+		if !ok {
+			continue
+		}
+		for i := 0; i < s.NumFields(); i++ {
+			pt, ok := s.Field(i).Type().(*types.Pointer)
+			if !ok || typeName(pt.Elem()) != want {
+				continue
+			}
+			_, arr, _ := x.fieldArr(st, tn.Type(), i)
+			o := Term{"o!nd", SInt}
+			st.assume(Forall([]Term{o}, Neq(Select(arr, o), r), []Term{Select(arr, o)}))
+		}
 	}
 }
 
